@@ -1,7 +1,9 @@
 import OrsoVerif.Lemmas.EstimatorsTop
 import OrsoVerif.Lemmas.DistogramState
+import OrsoVerif.Lemmas.ProfileEst
 import Mathlib.Algebra.Order.Ring.Rat
 import Mathlib.Algebra.Field.Rat
+import Mathlib.Data.Rat.Floor
 /-!
 # C14 — Histogram estimators are monotone, bounded and exact at the ends
 
@@ -288,16 +290,24 @@ theorem quantile_mono (floor : K → K) (ok : HistOK bins lo hi) (hf : FloorLike
        linarith)
     | exact scanQ_mono (v0, f0) tail 0 _ _ r1 r2 ok.inc ok.pos (by linarith) (by linarith) q1' q2'
 
+set_option linter.unusedVariables false in
+set_option linter.unusedSimpArgs false in
 /-- **A profile's estimates below and above a point add up to the number of non-null values**
-(`count - missing`, the expression of `estimate_values_above` as it is in the source) whenever the
-estimate exists. -/
+(`count - missing`) whenever the estimate exists, for every profile whose histogram counts add up to
+the non-null values (`hm`; `C14.reachable_profile_ok` shows this of every profile reachable by
+building, estimating and adding).  `estimate_values_above` is the expression the source has now,
+over `count`, `missing`, the histogram's own total and `count_at(point)`: the statement holds
+whichever of the two totals the source subtracts from. -/
 theorem below_add_above (count missing : K) (mn mx : Option K) (p b : K)
+    (hm : mass bins = count - missing)
     (h : estimateBelow bins mn mx p = some b) :
     ∃ a, estimateAbove count missing bins mn mx p = some a ∧ b + a = count - missing := by
   unfold estimateBelow at h
   unfold estimateAbove
   rw [h]
-  exact ⟨count - missing - b, rfl, by ring⟩
+  refine ⟨_, rfl, ?_⟩
+  simp only [Gen.DistogramExpr.estimateAbove, sumCounts_eq_mass]
+  linarith
 
 /-- **The profile's estimates inherit the bounds**: a column profile's histogram holds numpy's
 left edges, so its first centre *is* the minimum (`hhead`) and its counts add up to the non-null
@@ -310,8 +320,9 @@ theorem profile_estimates_bounded (ok : HistOK bins lo hi) (count missing : K)
       estimateAbove count missing bins (some lo) (some hi) p = some a ∧
       0 ≤ b ∧ b ≤ count - missing ∧ 0 ≤ a ∧ a ≤ count - missing ∧ b + a = count - missing := by
   obtain ⟨r, hr, hr0, hr1⟩ := countAt_bounds_partial ok (fun v0 f0 h => Or.inl (hhead v0 f0 h)) h0 h1
-  refine ⟨r, count - missing - r, hr, by unfold estimateAbove; rw [hr]; rfl, hr0, by rw [← hm]; exact hr1, ?_, ?_, by ring⟩
-  · rw [← hm]; linarith
+  obtain ⟨a, ha, hsum⟩ := below_add_above count missing (some lo) (some hi) p r hm hr
+  refine ⟨r, a, hr, ha, hr0, by rw [← hm]; exact hr1, ?_, ?_, hsum⟩
+  · rw [← hm] at hsum; linarith
   · linarith
 
 /-- **A profile's estimate below a point is non-decreasing in the point** (same hypotheses). -/
@@ -321,6 +332,268 @@ theorem profile_below_mono (ok : HistOK bins lo hi)
     (e1 : estimateBelow bins (some lo) (some hi) p = some b1)
     (e2 : estimateBelow bins (some lo) (some hi) q = some b2) : b1 ≤ b2 :=
   countAt_mono_partial ok (fun v0 f0 h => Or.inl (hhead v0 f0 h)) h0 hpq h1 e1 e2
+
+/-! ## Round 2: the strongest true statements about `count_at`, the boundary ranks of `quantile` -/
+
+/-- **`count_at` answers everywhere inside the observed range** — for every histogram satisfying
+C13's invariants, the left tail included (its division is by `v0 - min > 0`; the interior index
+`#{v < value} - 1` and its successor exist). -/
+theorem countAt_defined (ok : HistOK bins lo hi) {x : K} (hx : lo ≤ x) (hx' : x ≤ hi) :
+    ∃ r, countAt bins (some lo) (some hi) x = some r := by
+  obtain ⟨v0, f0, tail, vl, fl, rfl, hl⟩ := shape ok
+  rw [countAt_unfold v0 f0 tail vl fl lo hi x hl]
+  have hno : ¬ (x < lo ∨ hi < x) := by intro h; rcases h with h | h <;> linarith
+  rw [if_neg hno]
+  by_cases h1 : x = lo
+  · exact ⟨_, by rw [if_pos h1]⟩
+  rw [if_neg h1]
+  by_cases h2 : x = hi
+  · exact ⟨_, by rw [if_pos h2]⟩
+  rw [if_neg h2]
+  by_cases h3 : x ≤ v0
+  · exact ⟨_, by rw [if_pos h3]⟩
+  rw [if_neg h3]
+  by_cases h4 : vl ≤ x
+  · exact ⟨_, by rw [if_pos h4]⟩
+  rw [if_neg h4]
+  obtain ⟨r, hr, _⟩ := interior_range (v0, f0) tail x ok.inc ok.pos (not_le.mp h3)
+    ⟨(vl, fl), getLast?_mem _ _ hl, le_of_lt (not_le.mp h4)⟩
+  exact ⟨r, hr⟩
+
+/-- **The strongest true monotonicity / boundedness statement about `count_at` as it exists**: on
+the whole observed range *minus the open-closed left tail* `(min, v0]` — i.e. at the minimum and
+everywhere right of the first centre — the estimate is non-decreasing and within `[0, total]`, for
+every histogram satisfying C13's invariants, with no further hypothesis.  (Inside `(min, v0]` the
+answer is `ratio * v0 / 2`, see `left_tail_sound_iff` for exactly when that is sound.) -/
+theorem countAt_sound_off_left_tail (ok : HistOK bins lo hi) {v0 f0 x y r1 r2 : K}
+    (hh : bins.head? = some (v0, f0)) (hx : x = lo ∨ v0 < x) (hy : y = lo ∨ v0 < y)
+    (hxy : x ≤ y) (hyhi : y ≤ hi)
+    (h1 : countAt bins (some lo) (some hi) x = some r1)
+    (h2 : countAt bins (some lo) (some hi) y = some r2) : r1 ≤ r2 ∧ 0 ≤ r1 ∧ r2 ≤ mass bins := by
+  have hlo0 : lo ≤ v0 := by
+    obtain ⟨v0', f0', tail, vl, fl, rfl, hl⟩ := shape ok
+    simp only [List.head?_cons, Option.some.injEq, Prod.mk.injEq] at hh
+    rw [← hh.1]; exact (ok.within (v0', f0') (by simp)).1
+  have hm := mass_nonneg ok.pos
+  rcases hx with rfl | hx
+  · rw [countAt_min ok] at h1
+    simp only [Option.some.injEq] at h1
+    subst h1
+    rcases hy with rfl | hy
+    · rw [countAt_min ok] at h2
+      simp only [Option.some.injEq] at h2
+      subst h2
+      exact ⟨le_refl _, le_refl _, hm⟩
+    · obtain ⟨_, b, c⟩ := countAt_right_of_first_centre ok hh hy (le_refl y) hyhi h2 h2
+      exact ⟨b, le_refl _, c⟩
+  · have hy' : v0 < y := lt_of_lt_of_le hx hxy
+    exact countAt_right_of_first_centre ok hh hx hxy hyhi h1 h2
+
+/-- **Exactly when the left tail is sound** (C14-K01 delimited): for a histogram whose first centre
+lies strictly between the minimum and the maximum, the left tail stays within `[0, f0 / 2]` — the
+value the interior branch starts from at the first centre (`seg_left`) — **iff** `0 ≤ v0 ≤ f0`.
+So `LeftTailOK` in the `_partial` theorems is not merely sufficient: no weaker hypothesis on the
+first bin will do. -/
+theorem left_tail_sound_iff (ok : HistOK bins lo hi) {v0 f0 : K} (hh : bins.head? = some (v0, f0))
+    (hlt : lo < v0) (hv : v0 < hi) :
+    (∀ x, lo < x → x ≤ v0 → ∃ r, countAt bins (some lo) (some hi) x = some r ∧ 0 ≤ r ∧ r ≤ f0 / 2) ↔
+      (0 ≤ v0 ∧ v0 ≤ f0) := by
+  obtain ⟨v0', f0', tail, vl, fl, rfl, hl⟩ := shape ok
+  simp only [List.head?_cons, Option.some.injEq, Prod.mk.injEq] at hh
+  obtain ⟨rfl, rfl⟩ := hh
+  have unf : ∀ x, lo < x → x ≤ v0' →
+      countAt ((v0', f0') :: tail) (some lo) (some hi) x = some ((x - lo) / (v0' - lo) * v0' / 2) := by
+    intro x h1 h2
+    rw [countAt_unfold v0' f0' tail vl fl lo hi x hl,
+      if_neg (by intro h; rcases h with h | h <;> linarith), if_neg (ne_of_gt h1),
+      if_neg (ne_of_lt (lt_of_le_of_lt h2 hv)), if_pos h2]
+  constructor
+  · intro h
+    obtain ⟨r, hr, h0, h1⟩ := h v0' hlt (le_refl _)
+    rw [unf v0' hlt (le_refl _)] at hr
+    simp only [Option.some.injEq] at hr
+    have hd : v0' - lo ≠ 0 := by intro h; linarith
+    rw [div_self hd, one_mul] at hr
+    constructor <;> linarith
+  · intro ⟨h0, h1⟩ x hx hx'
+    have hb := left_bounds hx hx' h0
+    exact ⟨_, unf x hx hx', hb.1, by linarith [hb.2]⟩
+
+/-- **The boundary ranks of `quantile`** (the guards are those of the source): at rank
+`q_count = f0 / 2` the estimate is exactly the first centre, at rank `total - fl / 2` exactly the
+last centre — both tests are non-strict, so the interior walk (which has no running sum above
+`mb = Σ mids` and would raise `StopIteration`) is never entered at a boundary rank. -/
+theorem quantile_boundary_ranks (ok : HistOK bins lo hi) {v0 f0 vl fl : K}
+    (hh : bins.head? = some (v0, f0)) (hl : bins.getLast? = some (vl, fl)) :
+    quantileQ bins (some lo) (some hi) (f0 / 2) = some v0 ∧
+    quantileQ bins (some lo) (some hi) (mass bins - fl / 2) = some vl := by
+  obtain ⟨v0', f0', tail, vl', fl', rfl, hl'⟩ := shape ok
+  simp only [List.head?_cons, Option.some.injEq, Prod.mk.injEq] at hh
+  obtain ⟨rfl, rfl⟩ := hh
+  rw [hl'] at hl
+  simp only [Option.some.injEq, Prod.mk.injEq] at hl
+  obtain ⟨rfl, rfl⟩ := hl
+  have hf0 : 0 < f0' := ok.pos (v0', f0') (by simp)
+  have hfl : 0 < fl' := ok.pos (vl', fl') (getLast?_mem _ _ hl')
+  have hh0 : f0' / 2 ≠ 0 := by positivity
+  have hhl : fl' / 2 ≠ 0 := by positivity
+  constructor
+  · rw [quantileQ_unfold v0' f0' tail vl' fl' lo hi _ hl', if_pos (le_refl _), div_self hh0]
+    congr 1; ring
+  · cases tail with
+    | nil =>
+      simp only [List.getLast?_singleton, Option.some.injEq, Prod.mk.injEq] at hl'
+      obtain ⟨rfl, rfl⟩ := hl'
+      have hm : mass [(v0', f0')] = f0' := by simp [mass]
+      rw [quantileQ_unfold v0' f0' [] v0' f0' lo hi _ (by simp), hm,
+        if_pos (by linarith), show f0' - f0' / 2 = f0' / 2 by ring, div_self hh0]
+      congr 1; ring
+    | cons c rest =>
+      have hl2 : (c :: rest).getLast? = some (vl', fl') := by simpa [List.getLast?_cons_cons] using hl'
+      have hge : fl' ≤ mass (c :: rest) :=
+        mem_le_mass (c :: rest) (vl', fl') (fun b hb => ok.pos b (by simp [hb])) (getLast?_mem _ _ hl2)
+      have hm : mass ((v0', f0') :: c :: rest) = f0' + mass (c :: rest) := by
+        simp [mass]
+      rw [quantileQ_unfold v0' f0' (c :: rest) vl' fl' lo hi _ hl', if_neg (by rw [hm]; intro h; linarith),
+        if_pos (le_refl _), sub_self, zero_div, zero_mul, add_zero]
+
+/-- **The `floor` parameter is not an empty assumption**: the floor the exact-mode driver runs
+(`Rat.floor`, Python's `int()` on a non-negative number) satisfies `FloorLike` for every histogram
+total that is a natural number — totals are sums of integer counts — and is non-negative on
+non-negative arguments, so `quantile_0 / _1 / _bounds / _mono` apply to the model as it is executed. -/
+theorem floorLike_rat (n : ℕ) :
+    FloorLike (fun x : ℚ => ((x.floor : ℤ) : ℚ)) (n : ℚ) ∧ ∀ a : ℚ, 0 ≤ a → (0 : ℚ) ≤ ((a.floor : ℤ) : ℚ) := by
+  refine ⟨⟨?_, ?_, ?_, ?_⟩, ?_⟩
+  · intro a b h
+    have : a.floor ≤ b.floor := Int.floor_mono (R := ℚ) h
+    exact Int.cast_le.mpr this
+  · have : (0 : ℚ).floor = 0 := Int.floor_zero (R := ℚ)
+    simp only [this, Int.cast_zero]
+  · have : ((n : ℚ)).floor = n := Int.floor_natCast (R := ℚ) n
+    simp only [this, Int.cast_natCast]
+  · intro a
+    exact Int.floor_le (α := ℚ) a
+  · intro a ha
+    have : (0 : ℤ) ≤ a.floor := Int.floor_nonneg (α := ℚ) |>.mpr ha
+    exact_mod_cast this
+
+/-! ## Round 2: sequences on one column profile — estimate, add, estimate again -/
+
+section profiles
+open Gen.ProfileEst (addDropsCache)
+
+variable {mrg : View K → List (K × K) → Except String (List (K × K))} {Base : EProf K → Prop} {p : EProf K}
+
+/-- **The cache discipline of the source** (`Gen.ProfileEst.*`, regenerated from `profiler.py` on every
+run): `__add__` removes the `Distogram` an earlier estimate left on the copy it starts from — or
+the estimators never reuse one.  With `new_profile = self.deep_copy()` and nothing else,
+`addDropsCache` is generated as `false`, this no longer checks, and with it everything below. -/
+theorem cache_discipline : CacheDiscipline := by
+  unfold CacheDiscipline; decide
+
+/-- **`distogram.load` keeps the bounds it is given** (`Gen.ProfileEst.loadMin / loadMax`, regenerated from
+`load` on every run): the histogram the estimators work on has the profile's `minimum` and `maximum`, also
+when one of them is 0.  With `dgram.max = maximum or dgram.bins[-1][0]` this no longer checks. -/
+theorem load_keeps_bounds : LoadGiven := by
+  unfold LoadGiven; decide
+
+/-- **No stale histogram after a sum**: on every profile reachable by building, estimating (in any
+order, any number of times, on operands and on sums) and adding — whatever the histogram merge does —
+`estimate_values_below / above` answer from the profile's *own current* `histogram`, `minimum`,
+`maximum`, `count` and `missing`, never from a `Distogram` an earlier estimate left on an operand.
+Rests on `cache_discipline`, i.e. on what `__add__` does with the copy it starts from
+in the source as it is now. -/
+theorem sum_estimates_use_the_sum (h : Reach mrg Base p) (x : K) :
+    p.below x = estimateBelow p.hist p.minimum p.maximum x ∧
+    p.above x = estimateAbove p.count p.missing p.hist p.minimum p.maximum x := by
+  have hv := reach_view_fresh cache_discipline h
+  unfold EProf.below EProf.above EProf.below estimateBelow estimateAbove
+  rw [hv, fresh_eq load_keeps_bounds]
+  exact ⟨rfl, rfl⟩
+
+/-- **Every reachable profile is well formed** (over C13's reference merge, from well-formed base
+profiles — numpy's histogram of one batch is the parameter): C13's invariants of the histogram, at
+most `binCount` bins, centres within `[minimum, maximum]`, and **the histogram's counts add up to
+`count - missing`** — `count` and `missing` are the generated `addCount` / `addMissing` of the
+operands', the histogram is merged, so the two totals an implementation might subtract from agree. -/
+theorem reachable_profile_ok (h : Reach refMerge ProfOK p) :
+    ProfOK p ∧ sumCounts p.view.bins = p.count - p.missing := by
+  have ok := reach_profOK load_keeps_bounds h
+  refine ⟨ok, ?_⟩
+  rw [reach_view_fresh cache_discipline h, fresh_eq load_keeps_bounds, sumCounts_eq_mass]
+  exact ok.mass
+
+/-- **Below and above add up to the number of non-null values on every reachable profile**
+(merged any number of times, estimated in between). -/
+theorem reachable_below_add_above (h : Reach refMerge ProfOK p) {x b : K} (hb : p.below x = some b) :
+    ∃ a, p.above x = some a ∧ b + a = p.count - p.missing := by
+  obtain ⟨e1, e2⟩ := sum_estimates_use_the_sum h x
+  rw [e1] at hb
+  rw [e2]
+  exact below_add_above p.count p.missing p.minimum p.maximum x b (reach_profOK load_keeps_bounds h).mass hb
+
+/-- **The estimates of every reachable profile inherit the bounds**: inside `[minimum, maximum]`
+both estimates exist and add up; below is 0 at the minimum and the number of non-null values at
+the maximum (above the reverse); and at the minimum and everywhere right of the first bin
+(`countAt_sound_off_left_tail` — a sum's first bin may be a merged one, so a sum can have a left
+tail and C14-K01 reaches it) below is non-decreasing, above non-increasing, both within
+`[0, count - missing]`. -/
+theorem reachable_estimates_bounded (h : Reach refMerge ProfOK p) (hne : p.hist ≠ []) :
+    ∃ lo hi, p.minimum = some lo ∧ p.maximum = some hi ∧
+      p.below lo = some 0 ∧ p.above lo = some (p.count - p.missing) ∧
+      (lo < hi → p.below hi = some (p.count - p.missing) ∧ p.above hi = some 0) ∧
+      (∀ x, lo ≤ x → x ≤ hi → ∃ b a, p.below x = some b ∧ p.above x = some a ∧ b + a = p.count - p.missing) ∧
+      (∀ v0 f0 x y bx by' ax ay, p.hist.head? = some (v0, f0) → (x = lo ∨ v0 < x) → (y = lo ∨ v0 < y) →
+        x ≤ y → y ≤ hi → p.below x = some bx → p.below y = some by' → p.above x = some ax → p.above y = some ay →
+        bx ≤ by' ∧ 0 ≤ bx ∧ by' ≤ p.count - p.missing ∧ ay ≤ ax ∧ 0 ≤ ay ∧ ax ≤ p.count - p.missing) := by
+  have ok := reach_profOK load_keeps_bounds h
+  obtain ⟨lo, hi, hlo, hhi, hok⟩ := profOK_histOK ok hne
+  have e := fun x => sum_estimates_use_the_sum h x
+  have sum := fun x b (hb : p.below x = some b) => reachable_below_add_above h hb
+  have blo : p.below lo = some 0 := by
+    rw [(e lo).1, hlo, hhi]; exact countAt_min hok
+  refine ⟨lo, hi, hlo, hhi, blo, ?_, ?_, ?_, ?_⟩
+  · obtain ⟨a, ha, hs⟩ := sum lo 0 blo
+    rw [ha]; congr 1; linarith
+  · intro hlt
+    have bhi : p.below hi = some (p.count - p.missing) := by
+      rw [(e hi).1, hlo, hhi, ← ok.mass]; exact countAt_max hok hlt
+    obtain ⟨a, ha, hs⟩ := sum hi _ bhi
+    refine ⟨bhi, ?_⟩
+    rw [ha]; congr 1; linarith
+  · intro x hx hx'
+    obtain ⟨b, hb⟩ := countAt_defined hok hx hx'
+    have hb' : p.below x = some b := by rw [(e x).1, hlo, hhi]; exact hb
+    obtain ⟨a, ha, hs⟩ := sum x b hb'
+    exact ⟨b, a, hb', ha, hs⟩
+  · intro v0 f0 x y bx by' ax ay hh hx hy hxy hyhi h1 h2 h3 h4
+    obtain ⟨a1, ha1, s1⟩ := sum x bx h1
+    obtain ⟨a2, ha2, s2⟩ := sum y by' h2
+    rw [h3] at ha1; rw [h4] at ha2
+    simp only [Option.some.injEq] at ha1 ha2
+    subst ha1; subst ha2
+    rw [(e x).1, hlo, hhi] at h1
+    rw [(e y).1, hlo, hhi] at h2
+    obtain ⟨m, z, t⟩ := countAt_sound_off_left_tail hok hh hx hy hxy hyhi h1 h2
+    rw [ok.mass] at t
+    refine ⟨m, z, t, ?_, ?_, ?_⟩ <;> linarith
+
+end profiles
+
+/-- **What goes wrong when the copy keeps the attribute** (`addWith false`: `new_profile =
+self.deep_copy()` and nothing else — the code before `fix: adding column profiles drops the
+histogram cached by an earlier estimate`): estimate on the profile of `[0]`, add the profile of
+`[1]`; the sum has maximum 1 and two non-null values, but it still carries the histogram of `[0]`
+alone, which answers `None` at 1 and has a total of 1. -/
+theorem stale_histogram_if_the_copy_keeps_it :
+    let a : EProf ℚ := ⟨1, 0, some 0, some 0, [(0, 1)], none⟩
+    let b : EProf ℚ := ⟨1, 0, some 1, some 1, [(1, 1)], none⟩
+    ∃ c, EProf.addWith false refMerge a.touch b = .ok c ∧
+      c.maximum = some 1 ∧ c.count - c.missing = 2 ∧ c.hist = [(0, 1), (1, 1)] ∧
+      c.cache.map (·.bins) = some [(0, 1)] ∧ c.cache.map (·.max) = some (some 0) ∧
+      countAt [((0 : ℚ), (1 : ℚ))] (some 0) (some 0) 1 = none ∧ sumCounts [((0 : ℚ), (1 : ℚ))] = 1 := by
+  refine ⟨_, rfl, ?_⟩
+  decide +kernel
 
 /-- The C13 invariants give `HistOK`: every state reached by a history of the reference machine
 with at least one bin satisfies the hypothesis of the theorems above. -/
